@@ -17,6 +17,10 @@ Three families (DESIGN.md 5/C03):
   (iii') representation histories: ONE representation object through evaluations and generator (re-)assignments;
         rep[w] @ point always belongs to the current generators; also with a caller that recycles in place (T[...] = other)
         the Transformation / Isometry objects it has assigned: the generator is the transformation that was assigned.
+  (v)   independent image: Y = A @ X / A.apply(X, mode) for A exactly or nearly the identity (every way of obtaining one:
+        identity(), Transformation / Isometry(np.identity), rep[''], rep['aA'], inv @ A, composites of identities) and
+        generic A, X of every class of both modules, single and composite; then one of Y, X, A is edited in place by item
+        assignment: the other two keep exactly their primary / derived / dual data, and the laws still hold for X.
 
 The oracle for the action itself is the definition "every coordinate row v of the object becomes M v"
 (M the matrix acting on column vectors), written with plain einsum / matmul on the unit rows; it never calls
@@ -1291,6 +1295,169 @@ def case_mixed(case):
             "nt": not np.allclose(RA, np.eye(n + 1))}
 
 
+
+# ------------------------------------------------------------------------------------------------
+# family (v): the image is an object of its own (two-step histories: apply, then edit one side in place)
+# ------------------------------------------------------------------------------------------------
+IND_ID_ROUTES = ["P.identity()", "H.identity()", "P.T(eye)", "H.I(eye)", "P.T(eye,int)", "P.T(eye,col)", "H.I(eye,col)",
+                 "prep['']", "hrep['']", "prep['aA']", "hrep['bB']", "P:inv@A", "H:inv@A", "P.T(eye)^sX", "H.I(eye)^sX"]
+IND_GEN_ROUTES = ["P:2.5I", "P:iso", "H:iso", "H:iso^sX", "P:uni"]
+IND_ROUTES = IND_ID_ROUTES + IND_GEN_ROUTES
+IND_OPS = ["matmul", "apply", "apply-pairwise", "apply-pairwise_reversed"]
+IND_TARGETS = ["result", "operand", "transformation"]
+# item-assignment keys per composite shape of X: (key as text, composite shape of the selection)
+IND_EDITS = {"[]": [["...", []]],
+             "[2]": [["0", []], ["-1", []], ["...", [2]], [":1", [1]]],
+             "[2, 3]": [["0", [3]], ["1,2", []], ["...", [2, 3]], [":,0", [2]]]}
+IND_SHAPES = [[], [2], [2, 3]]
+
+
+def ind_key(text):
+    def one(s_):
+        if s_ == "...":
+            return Ellipsis
+        if ":" in s_:
+            a_, b_ = s_.split(":")
+            return slice(int(a_) if a_ else None, int(b_) if b_ else None)
+        return int(s_)
+    parts = [one(s_) for s_ in text.split(",")]
+    return parts[0] if len(parts) == 1 else tuple(parts)
+
+
+def build_ind_A(route, n, sX):
+    from geometry_tools import projective as P, hyperbolic as H
+    m = n + 1
+    eye = np.identity(m)
+    if route == "P.identity()":
+        return P.identity(n)
+    if route == "H.identity()":
+        return H.identity(n)
+    if route == "P.T(eye)":
+        return P.Transformation(eye)
+    if route == "H.I(eye)":
+        return H.Isometry(eye)
+    if route == "P.T(eye,int)":
+        return P.Transformation(np.identity(m, dtype=np.int64))
+    if route == "P.T(eye,col)":
+        return P.Transformation(eye, column_vectors=True)
+    if route == "H.I(eye,col)":
+        return H.Isometry(eye, column_vectors=True)
+    if route in ("prep['']", "prep['aA']", "hrep['']", "hrep['bB']"):
+        kind = "proj" if route.startswith("p") else "hyp"
+        a, b = rep_generators(kind, m, False)
+        Cls, Rep = (P.Transformation, P.ProjectiveRepresentation) if kind == "proj" else (H.Isometry, H.HyperbolicRepresentation)
+        rep = Rep()
+        rep["a"] = Cls(a.copy(), column_vectors=True)
+        rep["b"] = Cls(b.T.copy())
+        return rep[route.split("'")[1]]
+    if route == "P:inv@A":
+        A = P.Transformation(mix_uni(2, m))
+        return A.inv() @ A
+    if route == "H:inv@A":
+        A = H.Isometry(mix_iso(2, n))
+        return A.inv() @ A
+    if route == "P.T(eye)^sX":
+        return P.Transformation(np.broadcast_to(eye, tuple(sX) + (m, m)).copy())
+    if route == "H.I(eye)^sX":
+        return H.Isometry(np.broadcast_to(eye, tuple(sX) + (m, m)).copy())
+    if route == "P:2.5I":
+        return P.Transformation(2.5 * eye)
+    if route == "P:iso":
+        return P.Transformation(mix_iso(5, n))
+    if route == "H:iso":
+        return H.Isometry(mix_iso(6, n))
+    if route == "H:iso^sX":
+        return H.Isometry(stack_units([mix_iso(3 + j, n) for j in range(size(sX))], sX).copy())
+    if route == "P:uni":
+        return P.Transformation(mix_uni(1, m))
+    raise ValueError(route)
+
+
+def ind_classes(route):
+    return MIX_X_TRANSFORMS + MIX_X_PROJ + MIX_X_HYP_ANY + ([] if route == "P:uni" else MIX_X_HYP_ISO)
+
+
+def snap(obj):
+    return [None if getattr(obj, f, None) is None else np.array(getattr(obj, f)) for f in ("proj_data", "aux_data", "dual_data")]
+
+
+def snap_changed(obj, before):
+    """Names of the data arrays of obj that are no longer what the snapshot says (exact comparison)."""
+    out = []
+    for f, b in zip(("proj_data", "aux_data", "dual_data"), before):
+        now = getattr(obj, f, None)
+        if (now is None) != (b is None) or (b is not None and (np.shape(now) != b.shape or not np.array_equal(now, b))):
+            out.append(f)
+    return out
+
+
+def case_independent(case):
+    """Y = A @ X (or A.apply(X, mode)); then ONE of the three objects is edited in place through item assignment
+    (obj[key] = other object of the same class); the other two still hold exactly the data they held before the
+    edit, a second A @ X gives the first image again (when X and A were not the ones edited), and A.inv() @ Y' for a
+    fresh image Y' is X as it was."""
+    from geometry_tools import projective as P, hyperbolic as H
+    n, route, xcls, sX, seed = case["n"], case["route"], case["xcls"], tuple(case["sX"]), case["seed"]
+    key_text, sel = case["edit"]
+    key = ind_key(key_text)
+    rclass = "identity" if route in IND_ID_ROUTES else "generic"
+    v, t = [], 0
+    outcome = []
+    # the replacement value: an object of the class of X and of the composite shape of the selection, moved away
+    # from every unit of X by a fixed isometry
+    mover = H.Isometry(mix_iso(9, n))
+    for op in IND_OPS:
+        for target in IND_TARGETS:
+            A = build_ind_A(route, n, sX)
+            X, whole = build_mix_X(xcls, n, sX, seed)
+            R, _ = build_mix_X(xcls, n, tuple(sel), seed)
+            if X is None or R is None:
+                return {"v": [], "t": t, "o": "skip:hyperplane-constructor", "nt": False}
+            R = mover @ R
+            if type(R) is not type(X):
+                R = type(X)(R)
+            t += 2
+            Y = (A @ X) if op == "matmul" else A.apply(X, broadcast=op.split("-", 1)[1] if "-" in op else "elementwise")
+            if type(Y) is not type(X):
+                v.append(V("independent/type/%s" % xcls, "A=%s X=%s %s: result is a %s" % (route, xcls, op, type(Y).__name__)))
+                continue
+            if target != "transformation" and tuple(Y.shape) != sX:
+                continue            # pairwise modes with a composite A: another composite shape, family (iv)'s business
+            sx, sy, sa = snap(X), snap(Y), snap(A)
+            if target == "result":
+                Y[key] = R
+                watch = (("X", X, sx), ("A", A, sa))
+            elif target == "operand":
+                X[key] = R
+                watch = (("result", Y, sy), ("A", A, sa))
+            else:
+                other = type(A)(np.broadcast_to(mix_iso(8, n), np.shape(A.proj_data)).copy())
+                A[...] = other
+                watch = (("result", Y, sy), ("X", X, sx))
+            t += 1
+            for name, obj, before in watch:
+                ch = snap_changed(obj, before)
+                if ch:
+                    v.append(V("independent/edit-%s-changes-%s/%s/%s" % (target, name, rclass, xcls.split(".")[0]),
+                               "A=%s X=%s%r: after Y = %s and the in-place edit %s[%s] = <other %s>, %s of %s changed" % (
+                                   route, xcls, sX, "A @ X" if op == "matmul" else "A.%s" % op,
+                                   {"result": "Y", "operand": "X", "transformation": "A"}[target], key_text, xcls, ", ".join(ch), name)))
+            if target == "result" and not v:
+                # X and A are what they were: a second application gives the first image again, and inv undoes it
+                Y2 = A @ X
+                back = A.inv() @ Y2
+                t += 3
+                tol = TOL_SIN
+                if unit_err(Y2.proj_data, sy[0], whole) > tol or (sy[1] is not None and Y2.aux_data is None):
+                    v.append(V("independent/second-application/%s/%s" % (rclass, xcls.split(".")[0]),
+                               "A=%s X=%s%r: A @ X computed again after editing the first image differs from the first image" % (route, xcls, sX)))
+                if tuple(back.shape) != sX or unit_err(back.proj_data, sx[0], whole) > tol:
+                    v.append(V("independent/inverse-after-edit/%s/%s" % (rclass, xcls.split(".")[0]),
+                               "A=%s X=%s%r: A.inv() @ (A @ X) after editing an earlier image is not X" % (route, xcls, sX)))
+            outcome.append(len(v))
+    return {"v": v, "t": t, "o": repr((route, xcls, sX, key_text, round(float(np.sum(np.abs(sy[0]))), 3))), "nt": True}
+
+
 # ------------------------------------------------------------------------------------------------
 def run(ctx):
     # the former thorough bounds take ~15 s on 16 cores: they are the quick tier now; thorough goes one level deeper
@@ -1334,6 +1501,10 @@ def run(ctx):
     ctx.assume("'all invertible matrices' is read in float64: a matrix whose inverse is an exact float64 matrix, or whose condition "
                "number is below 1e-3/(64 eps) ~ 7e10, is invertible; the inverse laws are demanded for it with the tolerances stated "
                "under 'inverse, ill-conditioned A'")
+    ctx.assume("independent image: 'the identity leaves X unchanged' and 'A.inv() @ (A @ X) equals X' are statements about the VALUES of "
+               "the objects: the image A @ X is an object of its own, so an in-place edit (item assignment, the library's own "
+               "mutation interface) of the image, of X or of A after the application leaves the data of the other two exactly as "
+               "they were; compared exactly (no arithmetic is involved in 'unchanged')")
     ctx.assume("representation histories: assigning rep[x] = T replaces the generator x AND its inverse letter (assigning through "
                "an inverse letter X makes the generator x the inverse of T); after any sequence of evaluations and assignments "
                "rep[w] is the word in the current generators; the generator is the transformation T was at the moment of the "
@@ -1376,6 +1547,15 @@ def run(ctx):
                              "X, any A": MIX_X_TRANSFORMS + MIX_X_PROJ + MIX_X_HYP_ANY, "X, isometric A only": MIX_X_HYP_ISO,
                              "composite shapes of A and of X": MS, "broadcast modes": MIX_MODES,
                              "second factor B for associativity": ["P:uni", "H:iso", "H:uni"]})
+    if want("independent"):
+        cases = [{"n": n, "route": r, "xcls": c, "sX": sx, "edit": e, "seed": ctx.seed}
+                 for n in (2, 3) for r in IND_ROUTES for c in ind_classes(r) for sx in IND_SHAPES for e in IND_EDITS[repr(sx)]]
+        ctx.product("independent-image", "checks.c03:case_independent", cases, chunk=16,
+                    domains={"dimension": [2, 3], "A, matrix exactly / nearly the identity": IND_ID_ROUTES, "A, generic": IND_GEN_ROUTES,
+                             "X": MIX_X_TRANSFORMS + MIX_X_PROJ + MIX_X_HYP_ANY + MIX_X_HYP_ISO, "composite shapes of X": IND_SHAPES,
+                             "application": IND_OPS, "object edited in place after the application": IND_TARGETS,
+                             "edit (item-assignment key, composite shape of the assigned object) per shape of X": IND_EDITS,
+                             "bounds": "the same in both tiers"})
     if want("representations"):
         L = 4 if q else 6
         cfgs = [("proj", m, cx, s) for m in (2, 3, 4) for cx in (False, True) for s in ("col", "row")]
